@@ -7,6 +7,7 @@ import json
 import re
 
 from props import libspec
+from props import userclasses
 from props.libspec import jv, unjv
 
 ENGINE = "latexwrap"
@@ -29,7 +30,18 @@ RULE = ("streams: wrapper = random small libraries (str / int / list / list-of-N
         "last in the body), the span being the whole value, at its very start, at its very end, in the middle, glued to letters / "
         "accented letters / brackets / TeX specials, next to an escaped dollar OUTSIDE the span: bounded-exhaustive over (special x "
         "body layout x context) and random, under all five option combinations, kept only when pristine pylatexenc (called "
-        "directly, computed at run time) round-trips the value both fully encoded and with the span kept verbatim. distinct = "
+        "directly, computed at run time) round-trips the value both fully encoded and with the span kept verbatim; positions = entries of 1..5 "
+        "(thorough: 1..7) fields with a non-text value (int, bool, None, float, list) at EVERY non-empty subset of the field positions "
+        "(first / middle / last / several / all), the other fields holding texts that convert, stay or fail, stub converters, compared "
+        "with the Coq wrapper model like the wrapper stream; userclass (ORACLE ONLY: the model has no user classes) = the same position "
+        "patterns and random libraries built from the CALLER'S OWN classes: Entry subclasses (trivial subclass, subclass whose `fields` "
+        "property hands out a copy of its list), String / Preamble / comment subclasses, str-subclass field values, @string values and "
+        "NameParts words, int-subclass and float values, duplicates of a key across plain and subclass blocks, through the real "
+        "middlewares with the stub converters, judged by the same wrapper oracle (converted text, exact converter calls in order, "
+        "error containment, block class kept); userclass-default (ORACLE ONLY) = such libraries and position patterns over the "
+        "round-trip alphabet through the middlewares with their DEFAULT converters (enc / dec / enc,dec): scope and types, equality "
+        "with the result on the same library built from the plain classes, and decode(encode(.)) = identity on every block whose texts "
+        "pristine pylatexenc round-trips. distinct = "
         "distinct (stream, input); non-trivial = some visited text is changed by the converter or fails")
 TRUSTED = ["pylatexenc (encoder tables, LaTeX parser) is NOT modelled: the round-trip clause of C18 is validated by testing only "
            "(stream roundtrip) - the proof-level claim is PARTIAL: scope, types, error containment and the conditional round trip "
@@ -124,6 +136,172 @@ def gen_wrap_string_value(rng, key):
 
 def gen_wrap_meta(rng, spec):
     return [["méta", "é BOOM"]] if rng.random() < 0.2 else None
+
+
+# ---------------------------------------------------------------- generation: the caller's own classes, non-text values at every position
+# Extended value specs (this file only): {"strsub": text} = an instance of a str subclass; {"float": x}; {"intsub": n} = an
+# instance of an int subclass; {"parts": [...], "sub": 1} = NameParts whose words are str-subclass instances.
+# Extended block specs: "cls": "sub" (trivial subclass of the block's class) | "copy" (Entry subclass whose `fields` property
+# returns a copy of the list it holds).
+NONTEXT = [{"int": 3}, {"int": 0}, None, {"bool": True}, {"bool": False}, {"float": 1.5}, {"float": 0.0}, {"float": -2.25},
+           {"float": 1e100}, {"list": ["é", "BOOM"]}, {"list": []}, {"list": [{"int": 1}, None]}]
+NONTEXT_USER = NONTEXT + [{"intsub": 7}, {"intsub": 0}, {"list": [{"strsub": "é"}, {"strsub": "BOOM"}]}]
+STUB_TEXTS = ["café", "é", "plain", "BOOM", "xBOOMy é", "QUIET", "\\'e", "a\\'e é", "", "éé"]
+
+
+def position_patterns(nmax):
+    """every (number of fields, non-empty set of positions holding a non-text value)"""
+    for nf in range(1, nmax + 1):
+        for mask in range(1, 1 << nf):
+            yield nf, [i for i in range(nf) if mask >> i & 1]
+
+
+def user_text(rng, text, user):
+    """a text value: plain str, or for the caller's classes also a str-subclass instance / NameParts (of str-subclass words)"""
+    r = rng.random()
+    if r < 0.15:
+        words = [text] + ([rng.choice(["x", "é", text])] if rng.random() < 0.5 else [])
+        v = {"parts": [words, [], [text], [text] if rng.random() < 0.2 else []]}
+        if user and rng.random() < 0.6:
+            v["sub"] = 1
+        return v
+    if user and r < 0.6:
+        return {"strsub": text}
+    return text
+
+
+def gen_position_entry(rng, nf, pos, ecls, text_gen, nontext):
+    fields = []
+    for i in range(nf):
+        key = FKEYS18[i % len(FKEYS18)] + ("" if i < len(FKEYS18) else str(i))
+        v = rng.choice(nontext) if i in pos else user_text(rng, text_gen(rng), ecls is not None)
+        fields.append([key, v, rng.choice([None, i + 1])])
+    s = {"t": "entry", "type": rng.choice(["article", "book"]), "key": rng.choice(libspec.KEYS), "fields": fields,
+         "sl": rng.choice([None, 0, 4]), "raw": rng.choice([None, "@raw{...}"])}
+    if ecls:
+        s["cls"] = ecls
+    return s
+
+
+FKEYS18 = ["title", "year", "author", "note", "month", "pages", "volume", "number"]
+
+
+def gen_position_library(rng, nf, pos, ecls, text_gen, nontext):
+    """the entry with the pattern, sometimes with an @string (of a subclass when the entry is) before or after it"""
+    specs = [gen_position_entry(rng, nf, pos, ecls, text_gen, nontext)]
+    if rng.random() < 0.4:
+        v = text_gen(rng)
+        st = {"t": "string", "key": rng.choice(libspec.SKEYS), "value": {"strsub": v} if ecls and rng.random() < 0.5 else v,
+              "sl": rng.choice([None, 9]), "raw": None}
+        if ecls and rng.random() < 0.7:
+            st["cls"] = "sub"
+        specs.insert(rng.choice([0, 1]), st)
+    return specs
+
+
+def gen_user_library(rng, text_gen, stub):
+    """random small library (repeated keys, comments, failed block, metadata) whose blocks and values are instances of the
+    caller's classes with probability > 1/2 each; one Entry subclass per library next to plain entries (Library itself refuses
+    a duplicate key between two unrelated subclasses before any middleware runs)"""
+    def value(r, key):
+        x = r.random()
+        if x < 0.7:
+            return user_text(r, text_gen(r), True)
+        if x < 0.78:
+            return {"list": [{"parts": [["é"], [], ["BOOM"], []]}]}
+        return r.choice(NONTEXT_USER)
+
+    def svalue(r, key):
+        x = r.random()
+        if x < 0.45:
+            return {"strsub": text_gen(r)}
+        if x < 0.85:
+            return text_gen(r)
+        return r.choice([{"int": 3}, None, {"list": ["é"]}, {"float": 2.5}, {"intsub": 4}])
+    while True:
+        specs = libspec.gen_library(rng, value, meta_gen=gen_wrap_meta if stub else None, string_value=svalue)
+        ecls = rng.choice(["sub", "copy"])
+        for s in specs:
+            if s["t"] == "entry" and rng.random() < 0.65:
+                s["cls"] = ecls
+            elif s["t"] in ("string", "preamble", "expl", "impl") and rng.random() < 0.6:
+                s["cls"] = "sub"
+        if has_user(specs):
+            return specs
+
+
+def value_is_user(v):
+    if isinstance(v, dict):
+        if "strsub" in v or "intsub" in v or v.get("sub"):
+            return True
+        if "list" in v:
+            return any(value_is_user(x) for x in v["list"])
+    return False
+
+
+def has_user(specs):
+    """does the library hold an instance of a class the Coq model cannot represent (a user subclass)?"""
+    for s in specs:
+        if s.get("cls"):
+            return True
+        if s["t"] == "entry" and any(value_is_user(v) for _, v, _ in s["fields"]):
+            return True
+        if s["t"] == "string" and value_is_user(s["value"]):
+            return True
+    return False
+
+
+def spec_texts(specs):
+    """every text the middlewares are to visit"""
+    out = []
+
+    def of(v):
+        if isinstance(v, str):
+            out.append(v)
+        elif isinstance(v, dict) and "strsub" in v:
+            out.append(v["strsub"])
+        elif isinstance(v, dict) and "parts" in v:
+            for p in v["parts"]:
+                out.extend(p)
+    for s in specs:
+        if s["t"] == "entry":
+            for _, v, _ in s["fields"]:
+                of(v)
+        elif s["t"] == "string":
+            of(s["value"])
+    return out
+
+
+def gen_rt_text(rng):
+    """a text of the round-trip alphabet outside the known classes K5 / K6 under the default options"""
+    while True:
+        t = gen_text(rng)
+        if allowed_text(t) and rt_known_class(t, True, True) is None:
+            return t
+
+
+def gen_userclass_cases(rng, quick):
+    cases = []
+    stub_text = lambda r: r.choice(STUB_TEXTS)  # noqa: E731
+    seqs = [[0], [1], [0, 1], [1, 0], [0, 0]]
+    n = 0
+    for rep in range(1 if quick else 6):
+        for nf, pos in position_patterns(5 if quick else 7):
+            for ecls in (None, "sub", "copy"):
+                n += 1
+                lib = gen_position_library(rng, nf, pos, ecls, stub_text, NONTEXT_USER if ecls else NONTEXT)
+                cases.append({"stream": "userclass" if has_user(lib) else "positions",
+                              "input": {"kind": "wrapper", "lib": lib, "mws": seqs[n % 2] if rng.random() < 0.6 else rng.choice(seqs)}})
+            n += 1
+            ecls = rng.choice([None, "sub", "copy"])
+            lib = gen_position_library(rng, nf, pos, ecls, gen_rt_text, NONTEXT_USER if ecls else NONTEXT)
+            cases.append({"stream": "userclass-default", "input": {"kind": "userdefault", "lib": lib, "mws": [[0], [1], [0, 1]][n % 3]}})
+    for _ in range(250 if quick else 5000):
+        cases.append({"stream": "userclass", "input": {"kind": "wrapper", "lib": gen_user_library(rng, stub_text, True), "mws": rng.choice(seqs)}})
+    for i in range(120 if quick else 2500):
+        cases.append({"stream": "userclass-default", "input": {"kind": "userdefault", "lib": gen_user_library(rng, gen_rt_text, False),
+                                                               "mws": [[0], [1], [0, 1]][i % 3]}})
+    return cases
 
 
 # ---------------------------------------------------------------- generation: round-trip texts
@@ -302,6 +480,8 @@ def generate(rng, tier):
             n_prot -= 1
             cases.append({"stream": "roundtrip", "input": {"kind": "roundtrip", "text": t, "opts": ENC_OPTS[n_prot % len(ENC_OPTS)],
                                                            "pristine": True, "drop": n_prot % 3 == 0, "words": n_prot % 4 == 0}})
+    # the caller's own classes and non-text values at every field position (appended: the streams above keep their inputs)
+    cases.extend(gen_userclass_cases(rng, quick))
     return cases
 
 
@@ -364,6 +544,8 @@ def expected_wrapper(specs, kind):
             for k, v, ln in s["fields"]:
                 if isinstance(v, str):
                     v2 = cv(v)
+                elif isinstance(v, dict) and "strsub" in v:         # an instance of a str subclass IS a string-typed value
+                    v2 = cv(v["strsub"])
                 elif isinstance(v, dict) and "parts" in v:
                     f, vo, la, jr = v["parts"]
                     f2 = [cv(x) for x in f]
@@ -376,54 +558,81 @@ def expected_wrapper(specs, kind):
                 nf.append([k, v2, ln])
             s2 = dict(s, fields=nf)
         else:
-            s2 = dict(s, value=cv(s["value"])) if isinstance(s["value"], str) else s
+            sv = s["value"]
+            s2 = dict(s, value=cv(sv)) if isinstance(sv, str) else dict(s, value=cv(sv["strsub"])) if isinstance(sv, dict) and "strsub" in sv else s
         out.append((s2, bool(reasons), reasons, calls))
     return out
 
 
-def block_view(b):
-    """structural view of a real block for comparison with a spec"""
+_MODEL_CLASSES = ("Entry", "String", "Preamble", "ExplicitComment", "ImplicitComment")
+CLS_NAMES = {("entry", "sub"): "SubEntry", ("entry", "copy"): "CopyFieldsEntry", ("string", "sub"): "SubString",
+             ("preamble", "sub"): "SubPreamble", ("expl", "sub"): "SubExplicitComment", ("impl", "sub"): "SubImplicitComment"}
+
+
+def _class_of(b, exact):
+    """(name of the library class the block is an instance of, tag suffix naming the exact class of a user subclass)"""
     cn = type(b).__name__
+    if type(b).__module__ == "bibtexparser.model":
+        return cn, ""
+    for k in type(b).__mro__[1:]:
+        if k.__module__ == "bibtexparser.model" and k.__name__ in _MODEL_CLASSES:
+            return k.__name__, ("<%s>" % cn if exact else "")
+    return cn, ""
+
+
+def block_view(b, exact=True):
+    """structural view of a real block for comparison with a spec; an instance of a user subclass is viewed as its library
+    class with the exact class in the tag (`entry<SubEntry>`); exact=False leaves user class names out (comparison of a library
+    of user classes with the same library built from the plain classes)"""
+    cn, sub = _class_of(b, exact)
     md = list(b.parser_metadata.items())
     if cn == "Entry":
-        return ("entry", b.entry_type, b.key, [(f.key, value_view(f.value), f.start_line) for f in b.fields], b.start_line, b.raw, md)
+        return ("entry" + sub, b.entry_type, b.key, [(f.key, value_view(f.value, exact), f.start_line) for f in b.fields], b.start_line,
+                b.raw, md)
     if cn == "String":
-        return ("string", b.key, value_view(b.value), b.start_line, b.raw, md)
+        return ("string" + sub, b.key, value_view(b.value, exact), b.start_line, b.raw, md)
     if cn in ("Preamble",):
-        return ("preamble", b.value, b.start_line, b.raw, md)
+        return ("preamble" + sub, b.value, b.start_line, b.raw, md)
     if cn == "ExplicitComment":
-        return ("expl", b.comment, b.start_line, b.raw, md)
+        return ("expl" + sub, b.comment, b.start_line, b.raw, md)
     if cn == "ImplicitComment":
-        return ("impl", b.comment, b.start_line, b.raw, md)
+        return ("impl" + sub, b.comment, b.start_line, b.raw, md)
     if cn == "MiddlewareErrorBlock":
-        return ("mwerr", block_view(b.ignore_error_block), b.start_line, b.raw, md)
+        return ("mwerr", block_view(b.ignore_error_block, exact), b.start_line, b.raw, md)
     if cn == "DuplicateBlockKeyBlock":
-        return ("dup", b.key, block_view(b.ignore_error_block), b.start_line, b.raw, md)
+        return ("dup", b.key, block_view(b.ignore_error_block, exact), b.start_line, b.raw, md)
     return (cn, b.start_line, b.raw, md)
 
 
-def value_view(v):
+def value_view(v, exact=True):
     cn = type(v).__name__
     if cn == "NameParts":
-        return ("parts", list(v.first), list(v.von), list(v.last), list(v.jr))
+        return ("parts",) + tuple([str(x) if isinstance(x, str) else x for x in p] for p in (v.first, v.von, v.last, v.jr))
     if isinstance(v, list):
-        return ("list", [value_view(x) for x in v])
+        return ("list", [value_view(x, exact) for x in v])
     if isinstance(v, dict):
-        return ("dict", [(k, value_view(x)) for k, x in v.items()])
-    if isinstance(v, (str, int, bool)) or v is None:
+        return ("dict", [(k, value_view(x, exact)) for k, x in v.items()])
+    if isinstance(v, str):
+        return ("str", str(v))                  # an instance of a str subclass is a string: the claim is on type str and content
+    if isinstance(v, float):
+        return ("float", repr(v))
+    if isinstance(v, bool) or v is None:
         return (cn, v)
+    if isinstance(v, int):
+        return (cn if exact else "int", int(v))
     return (cn,)
 
 
 def spec_view(s):
     t = s["t"]
     md = [(k, unjv_plain(v)) for k, v in s.get("meta", [])]
+    sub = "<%s>" % CLS_NAMES[(t, s["cls"])] if s.get("cls") else ""
     if t == "entry":
-        return ("entry", s["type"], s["key"], [(k, spec_value_view(v), ln) for k, v, ln in s["fields"]], s.get("sl"), s.get("raw"), md)
+        return ("entry" + sub, s["type"], s["key"], [(k, spec_value_view(v), ln) for k, v, ln in s["fields"]], s.get("sl"), s.get("raw"), md)
     if t == "string":
-        return ("string", s["key"], spec_value_view(s["value"]), s.get("sl"), s.get("raw"), md)
+        return ("string" + sub, s["key"], spec_value_view(s["value"]), s.get("sl"), s.get("raw"), md)
     if t in ("preamble", "expl", "impl"):
-        return (t, s["text"], s.get("sl"), s.get("raw"), md)
+        return (t + sub, s["text"], s.get("sl"), s.get("raw"), md)
     return ("ParsingFailedBlock", s.get("sl"), s.get("raw") or "@x{", md)
 
 
@@ -446,6 +655,12 @@ def spec_value_view(v):
             return ("bool", v["bool"])
         if "other" in v:
             return ("_Opaque",)
+        if "strsub" in v:
+            return ("str", v["strsub"])
+        if "float" in v:
+            return ("float", repr(float(v["float"])))
+        if "intsub" in v:
+            return ("IntSub", v["intsub"])
     if v is None:
         return ("NoneType", None)
     return ("str", v)
@@ -460,7 +675,114 @@ def reasons_of(b):
 # ---------------------------------------------------------------- implementation side
 def impl(case):
     return {"wrapper": impl_wrapper, "options": impl_options, "roundtrip": impl_roundtrip,
-            "emptymsg": impl_emptymsg}[case["input"]["kind"]](case)
+            "emptymsg": impl_emptymsg, "userdefault": impl_userdefault}[case["input"]["kind"]](case)
+
+
+def unjv18(v):
+    """libspec.unjv plus the value specs of this file (str / int subclass instances, floats)"""
+    if isinstance(v, dict):
+        if "strsub" in v:
+            return userclasses.get().StrSub(v["strsub"])
+        if "intsub" in v:
+            return userclasses.get().IntSub(v["intsub"])
+        if "float" in v:
+            return float(v["float"])
+        if "list" in v:
+            return [unjv18(x) for x in v["list"]]
+        if "parts" in v and v.get("sub"):
+            from bibtexparser.middlewares.names import NameParts
+            S = userclasses.get().StrSub
+            f, vo, la, jr = v["parts"]
+            return NameParts(first=[S(x) for x in f], von=[S(x) for x in vo], last=[S(x) for x in la], jr=[S(x) for x in jr])
+    return unjv(v)
+
+
+def build_blocks18(specs):
+    """libspec.build_blocks plus blocks that are instances of the caller's subclasses ("cls")"""
+    from bibtexparser import model as M
+    out = []
+    for spec in specs:
+        t = spec["t"]
+        if t == "entry":
+            b = M.Entry(spec["type"], spec["key"], [M.Field(k, unjv18(v), ln) for k, v, ln in spec["fields"]], start_line=spec.get("sl"),
+                        raw=spec.get("raw"))
+        elif t == "string":
+            b = M.String(spec["key"], unjv18(spec["value"]), start_line=spec.get("sl"), raw=spec.get("raw"))
+        else:
+            b = libspec.build_block(dict(spec, meta=[]))
+        for k, v in spec.get("meta", []):
+            b.parser_metadata[k] = unjv(v)
+        cls = spec.get("cls")
+        if cls:
+            uc = userclasses.get()
+            b2 = uc.as_copyfields(b) if cls == "copy" else uc.as_sub(b)
+            assert type(b2).__name__ == CLS_NAMES[(t, cls)], (type(b2).__name__, t, cls)
+            b = b2
+        out.append(b)
+    return out
+
+
+def plain_twin(specs):
+    """the same library built from the library's own classes only"""
+    def val(v):
+        if isinstance(v, dict):
+            if "strsub" in v:
+                return v["strsub"]
+            if "intsub" in v:
+                return {"int": v["intsub"]}
+            if "list" in v:
+                return {"list": [val(x) for x in v["list"]]}
+            if "parts" in v:
+                return {"parts": v["parts"]}
+        return v
+    out = []
+    for s in specs:
+        s = {k: x for k, x in s.items() if k != "cls"}
+        if s["t"] == "entry":
+            s["fields"] = [[k, val(v), ln] for k, v, ln in s["fields"]]
+        elif s["t"] == "string":
+            s["value"] = val(s["value"])
+        out.append(s)
+    return out
+
+
+def class_tags(specs):
+    """distribution of the new input class: user classes present, positions of the non-text values among the fields"""
+    tags = set()
+    for s in specs:
+        if s.get("cls"):
+            tags.add("class:" + CLS_NAMES[(s["t"], s["cls"])])
+        vals = [v for _, v, _ in s["fields"]] if s["t"] == "entry" else [s["value"]] if s["t"] == "string" else []
+
+        def walk(v, top):
+            if isinstance(v, dict):
+                if "strsub" in v:
+                    tags.add("value:StrSub" if top else "value:StrSub-inside-list")
+                if "intsub" in v:
+                    tags.add("value:IntSub")
+                if "float" in v and top:
+                    tags.add("value:float")
+                if v.get("sub"):
+                    tags.add("value:NameParts-of-StrSub")
+                for x in v.get("list", []):
+                    walk(x, False)
+        for v in vals:
+            walk(v, True)
+        if s["t"] == "entry" and vals:
+            nt = [i for i, v in enumerate(vals) if not (isinstance(v, str) or (isinstance(v, dict) and ("strsub" in v or "parts" in v)))]
+            n = len(vals)
+            if nt and len(nt) < n:
+                if 0 in nt:
+                    tags.add("nontext-at:first")
+                if n - 1 in nt:
+                    tags.add("nontext-at:last")
+                if any(0 < i < n - 1 for i in nt):
+                    tags.add("nontext-at:middle")
+                if len(nt) > 1:
+                    tags.add("nontext-at:several")
+            elif nt:
+                tags.add("nontext-at:all")
+    return sorted(tags)
 
 
 def impl_emptymsg(case):
@@ -504,8 +826,10 @@ def impl_wrapper(case):
     assert enc.enc_char("é") == 29906
     inp = case["input"]
     specs, mws = inp["lib"], inp["mws"]
-    blocks = libspec.build_blocks(specs)
-    rec = {"sx_in": [120, list(mws), [enc.enc_block(b) for b in blocks]], "key": json.dumps(["wrapper", specs, mws])}
+    blocks = build_blocks18(specs)
+    # instances of the caller's own classes have no counterpart in the Coq model: such cases are judged by the oracle alone
+    user = has_user(specs)
+    rec = {"sx_in": None if user else [120, list(mws), [enc.enc_block(b) for b in blocks]], "key": json.dumps(["wrapper", specs, mws])}
     all_errs, all_calls, views = [], [], []
 
     def run():
@@ -522,15 +846,17 @@ def impl_wrapper(case):
             views.append([block_view(o) for o in outs])
         return lib
     r = implutil.guarded(run)
+    new_tags = class_tags(specs) if case.get("stream") in ("userclass", "positions") else []
     if r[0] == "exc":
-        rec["sx_out"] = implutil.r_exc(r[1])
+        rec["sx_out"] = None if user else implutil.r_exc(r[1])
         rec["oracle"] = {"ok": False, "detail": "LaTeX middleware raised %s instead of containing the error" % r[2]}
         rec["summary"] = "raised " + r[2]
         rec["nontrivial"] = True
+        rec["tags"] = new_tags
         return rec
     lib = r[1]
-    rec["sx_out"] = implutil.r_ok([[enc.enc_block(b, abstract_prev=True) for b in lib.blocks],
-                                   [[[enc.enc_str(m) for m in blk] for blk in app] for app in all_errs]])
+    rec["sx_out"] = None if user else implutil.r_ok([[enc.enc_block(b, abstract_prev=True) for b in lib.blocks],
+                                                     [[[enc.enc_str(m) for m in blk] for blk in app] for app in all_errs]])
     # ---- oracle: scope / types / error containment / visiting order, from the spec
     ok, detail = True, ""
     cur = [dict(s) for s in specs]
@@ -574,7 +900,7 @@ def impl_wrapper(case):
         cur = nxt
     rec["oracle"] = {"ok": ok, "detail": detail}
     rec["nontrivial"] = changed
-    rec["tags"] = ["wrapper:" + ("error" if any(any(b for b in app) for app in all_errs) else "clean")]  + (["wrapper:empty-message-failure"] if any("_Quiet" in b for app in all_errs for b in app) else [])
+    rec["tags"] = ["wrapper:" + ("error" if any(any(b for b in app) for app in all_errs) else "clean")]  + (["wrapper:empty-message-failure"] if any("_Quiet" in b for app in all_errs for b in app) else []) + new_tags
     rec["summary"] = repr(views[-1])[:200] if views else ""
     return rec
 
@@ -587,7 +913,8 @@ def _scope_ok(before, after):
         after = after[1]
     if before[0] != after[0]:
         return False, "block class changed %r -> %r" % (before[0], after[0])
-    if before[0] == "entry":
+    kind = before[0].split("<")[0]              # `entry<SubEntry>`: an instance of the caller's subclass of Entry
+    if kind == "entry":
         if (before[1], before[2], before[4:]) != (after[1], after[2], after[4:]):
             return False, "entry type / key / line / raw / metadata changed"
         if len(before[3]) != len(after[3]):
@@ -605,7 +932,7 @@ def _scope_ok(before, after):
             elif v1 != v2:
                 return False, "non-text value of %s changed: %r -> %r" % (k1, v1, v2)
         return True, ""
-    if before[0] == "string":
+    if kind == "string":
         if (before[1], before[3:]) != (after[1], after[3:]):
             return False, "string key / line / raw / metadata changed"
         if before[2][0] == "str":
@@ -669,6 +996,81 @@ def impl_options(case):
     rec["oracle"] = {"ok": ok, "detail": detail}
     rec["tags"] = ["options:" + inp["which"]]
     rec["summary"] = repr(after)[:200]
+    return rec
+
+
+def impl_userdefault(case):
+    """libraries of the caller's own classes (and non-text values at every field position) through the middlewares with their
+    DEFAULT converters; oracle only (pylatexenc is not modelled, user classes are not in the model)"""
+    import implutil
+    from bibtexparser.library import Library
+    from bibtexparser.middlewares import LatexEncodingMiddleware, LatexDecodingMiddleware
+    inp = case["input"]
+    specs, mws = inp["lib"], inp["mws"]
+    rec = {"sx_in": None, "sx_out": None, "key": json.dumps(["userdefault", specs, mws]), "nontrivial": True,
+           "tags": ["userclass-default:" + ",".join("enc" if k == 0 else "dec" for k in mws)] + class_tags(specs)}
+
+    def run(blocks, exact):
+        lib = Library(blocks)
+        views = [[block_view(b, exact) for b in lib.blocks]]
+        for k in mws:
+            lib = (LatexEncodingMiddleware() if k == 0 else LatexDecodingMiddleware()).transform(lib)
+            views.append([block_view(b, exact) for b in lib.blocks])
+        return views
+    blocks = build_blocks18(specs)
+    r = implutil.guarded(lambda: run(blocks, True))
+    if r[0] == "exc":
+        rec["oracle"] = {"ok": False, "detail": "LaTeX middleware raised %s instead of containing the error" % r[2]}
+        rec["summary"] = "raised " + r[2]
+        return rec
+    views = r[1]
+    rec["summary"] = repr(views[-1])[:200]
+    ok, detail = True, ""
+    # (1) scope and types, application by application
+    for step in range(len(mws)):
+        before, after = views[step], views[step + 1]
+        if len(before) != len(after):
+            ok, detail = False, "number of blocks changed"
+            break
+        for j, (x, y) in enumerate(zip(before, after)):
+            if x[0] in ("dup", "mwerr", "ParsingFailedBlock"):
+                good, why = (x == y), "a failed / duplicate block changed"
+            else:
+                good, why = _scope_ok(x, y)
+            if not good:
+                ok, detail = False, "application %d block %d: %s: %r -> %r" % (step, j, why, x, y)
+                break
+        if not ok:
+            break
+    # (2) the classes of the caller play no part: same result as on the library built from the plain classes
+    if ok and has_user(specs):
+        t = implutil.guarded(lambda: run(build_blocks18(plain_twin(specs)), False))
+        mine = implutil.guarded(lambda: run(build_blocks18(specs), False))
+        if t[0] == "exc" or mine[0] == "exc":
+            ok, detail = False, "LaTeX middleware raised %s" % (t[2] if t[0] == "exc" else mine[2])
+        elif t[1] != mine[1]:
+            k = [a == b for a, b in zip(t[1], mine[1])].index(False)
+            ok, detail = False, ("after %d application(s) the library of user-class instances is %r, the same library built from Entry / "
+                                 "String / str / int is %r: text values of subclass instances are not converted alike"
+                                 % (k, mine[1][k], t[1][k]))
+    # (3) decode(encode(.)) = identity, block by block where every text is within the third party's reach
+    if ok and list(mws) == [0, 1]:
+        bad = third_party_not_injective()
+        for j, s in enumerate(specs):
+            if s["t"] not in ("entry", "string") or views[0][j][0] in ("dup",):
+                continue
+            texts = spec_texts([s])
+            if all(allowed_text(x) and not any(c in bad for c in x) and rt_known_class(x, True, True) is None and pristine_roundtrips(x)
+                   for x in texts):
+                if views[2][j] != views[0][j]:
+                    ok, detail = False, "decode(encode(.)) with the default options: block %d %r became %r (encoded: %r)" % (
+                        j, views[0][j], views[2][j], views[1][j])
+                    break
+                rec["tags"].append("userclass-default:roundtrip-block-checked")
+            else:
+                rec["tags"].append("userclass-default:roundtrip-block-excluded")
+    rec["tags"] = sorted(set(rec["tags"]))
+    rec["oracle"] = {"ok": ok, "detail": detail}
     return rec
 
 
